@@ -131,11 +131,19 @@ class Prop(PropBase):
         cls = case["cls"]
         bwq = self._q(case["bw"])
         kw = dict(center_freq=self._q(case["cf"]), freq_align=case["al"])
+        # every third case reaches the same band through the attribute setters: built with another centre / alignment,
+        # then `z.center_freq = ...; z.freq_align = ...` (the labels must be those of the band constructed directly)
+        via_setter = (case["n"] + len(case["ops"]) + len(case["al"])) % 3 == 0
+        if via_setter:
+            kw = dict(center_freq=self._q(case["cf"]) + 3 * bwq, freq_align={"bottom": "top", "center": "bottom"}.get(case["al"], "center"))
         try:
             if sigs.is_complex(cls):
                 z = sigs.make(pb, cls, 256, bwq, sigs.T0S[0], nchan=case["n"], **kw)
             else:
                 z = sigs.make(pb, cls, 256, 1 * u.kHz, sigs.T0S[0], nchan=case["n"], chan_bw=bwq, **kw)
+            if via_setter:
+                z.center_freq = self._q(case["cf"])
+                z.freq_align = case["al"]
         except Exception as e:
             return {"err": [err_name(e), -1]}
         z0 = z
